@@ -3,6 +3,7 @@ package main
 // Engine values, leaf layout of Go types, pointers and the memory state.
 
 import (
+	"regexp"
 	"fmt"
 	"go/types"
 	"sort"
@@ -112,8 +113,21 @@ func (tc *Tcx) IntSortOf(t types.Type) *Sort {
 	return IntSort
 }
 
+var aliasWord = regexp.MustCompile(`\b(byte|rune)\b`)
+
+// typeKey names a type; the predeclared aliases byte and rune are written as uint8 and int32 so that
+// one Go type has one key (and one heap).
 func typeKey(t types.Type) string {
-	return types.TypeString(t, func(p *types.Package) string { return p.Path() })
+	s := types.TypeString(t, func(p *types.Package) string { return p.Path() })
+	if strings.Contains(s, "byte") || strings.Contains(s, "rune") {
+		s = aliasWord.ReplaceAllStringFunc(s, func(w string) string {
+			if w == "byte" {
+				return "uint8"
+			}
+			return "int32"
+		})
+	}
+	return s
 }
 
 // Layout returns the flattened leaves of a type.
